@@ -61,7 +61,7 @@ func simNorm(cs *compState) {
 	k := cs.k
 	pick := func(xs ...string) string { return xs[cs.Draw(len(xs))] }
 	genHost := func() string {
-		return pick("example.com", "www.Example.COM", "a.b.example.org", "10.1.2.3", "example.com:8080", "example.com:80", "user:pw@example.com", "bücher.example", "xn--bcher-kva.example", "EXAMPLE.com.", "localhost", "127.0.0.1", "intranet", "sub_domain.example.com")
+		return pick("example.com", "www.Example.COM", "a.b.example.org", "10.1.2.3", "example.com:8080", "example.com:80", "user:pw@example.com", "bücher.example", "xn--bcher-kva.example", "EXAMPLE.com.", "localhost", "127.0.0.1", "127.0.0.1:8080", "localhost:8080", "127.0.0.1:443", "intranet", "intranet:8080", "sub_domain.example.com")
 	}
 	genPath := func() string {
 		return pick("", "/", "/a/b", "/a/../b", "/a/./b/", "/%7Euser/x", "/a%20b", "/dir/page.html", "/x/y/z/", "//double/slash", "/caf%C3%A9", "/a;b=c", "/index.php")
@@ -175,6 +175,40 @@ func simNorm(cs *compState) {
 				if fmt.Sprint(want) != fmt.Sprint(got) {
 					k.Violate("C09", "query-order", "query-parameters-reordered", fmt.Sprintf("text %q: parameters %v became %v in %q", text, want, got, base.canon))
 				}
+			}
+		}
+	}
+	// E. purity with respect to the parent: normalising one child must not change how its siblings resolve
+	// (the preprocessor normalises all children of a page against the same parent object, in document order)
+	for r := 0; r < 3; r++ {
+		parentText := "http://" + pick("site.example", "www.site.example:8443", "10.9.8.7:8080") + pick("/docs/guide/page.html", "/a/b/", "/x/y/z.html?q=1")
+		pr := normOnce(parentText, nil, 1)
+		if pr.err != "" {
+			continue
+		}
+		shared := &models.URL{Raw: pr.canon}
+		if shared.Parse() != nil {
+			continue
+		}
+		refs := []string{}
+		for j := 0; j < 2+cs.Draw(4); j++ {
+			refs = append(refs, pick("/root/abs.png", "img/logo.png", "../up.css", "?v=2", "./x.js", "/other/abs2.png", "sub/deep/a.gif", "//cdn.example/lib.js"))
+		}
+		for _, ref := range refs {
+			fresh := normOnce(ref, &models.URL{Raw: pr.canon}, 2)
+			goruntime.SimSetBias(2)
+			u := &models.URL{Raw: ref}
+			err := preprocessor.NormalizeURL(u, shared)
+			got := normResult{}
+			if err != nil {
+				got.err = err.Error()
+			} else {
+				got.canon = u.String()
+			}
+			nChecked++
+			if got != fresh {
+				k.Violate("C09", "deterministic", "result-depends-on-earlier-siblings", fmt.Sprintf("reference %q against parent %q gives %q after its siblings %v were normalised against the same parent object, but %q against a fresh parent", ref, pr.canon, got.canon+got.err, refs, fresh.canon+fresh.err))
+				break
 			}
 		}
 	}
